@@ -16,7 +16,9 @@ def sh(cmd, cwd, timeout=1500):
 def main():
     prop, n = sys.argv[1], sys.argv[2]
     tier = "quick"
-    checks = [prop]
+    pid = prop[:3]
+    rnd = prop[3:]  # "" or e.g. "r2"
+    checks = [pid]
     keep = True
     args = sys.argv[3:]
     while args:
@@ -34,7 +36,7 @@ def main():
     result = {"head": subprocess.run(["git", "-C", "/repo", "rev-parse", "--short", "HEAD"], capture_output=True, text=True).stdout.strip()}
     try:
         demo_cmd = meta.get("demo_cmd", "")
-        demo_cmd = demo_cmd.replace(f"/tmp/seed-{prop}", wt)
+        demo_cmd = demo_cmd.replace(f"/tmp/seed{rnd}-{pid}", wt).replace(f"/tmp/seed-{pid}", wt)
         demo_cmd = re.sub(r"cd\s+" + re.escape(wt) + r"\s*&&", "", demo_cmd)
         demo_cmd = re.sub(r"\s{2,}\(.*$", "", demo_cmd, flags=re.S)  # trailing explanatory text
         demo_cmd = demo_cmd.replace("<worktree>", wt).replace("<checkout>", wt)
@@ -94,8 +96,12 @@ def main():
                 else:
                     shutil.copy(f"{src}/{f}", f"{dst}/{f}")
         m = dict(meta)
-        m["breaks_property"] = prop
+        m["breaks_property"] = pid
         m["confirmed_by_builder"] = result
+        m["what_was_run"] = (f"tools/seedtest.py {prop} {n}: fresh scratch worktree of /repo HEAD (outside /repo and /verif); demonstration without the change (must pass); "
+            "git apply patch.diff; go build ./... and compile of all test packages; existing suite minus the four always-failing tests of package agent (must pass); "
+            "demonstration with the change (must fail); demonstration files removed; ./check <property> quick with VERIF_REPO=<worktree>; worktree removed. "
+            "Results are in confirmed_by_builder.")
         json.dump(m, open(f"{dst}/meta.json", "w"), indent=1)
 
 main()
